@@ -20,6 +20,29 @@ fn qz(x: f64) -> i64 {
     ((x / U).round() as i64).clamp(-200_000, 200_000)
 }
 
+/// Batches conditioned on sub-populations (sim::strata()): `pick` selects which strata (index modulo).
+pub fn run_strata(runner: &mut Runner, data_dir: &str, seed: u64, size: usize, every: usize, phase: usize) {
+    let ctx = sim::SimCtx::new(data_dir);
+    for (si, st) in sim::strata().into_iter().enumerate() {
+        if si == 0 || si % every != phase % every {
+            continue; // the unconditioned population is covered by `run`
+        }
+        if !runner.wants() {
+            runner.n += 1;
+            continue;
+        }
+        let mut rng = rng_from(seed.wrapping_mul(7919).wrapping_add(si as u64), 62);
+        let mut inputs = Vec::new();
+        for k in 0..size {
+            let (ev, nt) = sim::stratum_event(&ctx, &mut rng, &st);
+            let banks = sim::to_banks(&ctx, &ev, 1000 + k as u32, 1.0, 0.0, &mut rng);
+            inputs.push((nt, ev.vertex, banks));
+        }
+        let base = obj(vec![("fam", json!("batch")), ("kind", json!(format!("stratum:{}", st.name))), ("case", json!(format!("stratum{si}"))), ("n", json!(size))]);
+        runner.case(base, move || reconstruct(inputs));
+    }
+}
+
 pub fn run(runner: &mut Runner, data_dir: &str, seed: u64, batches: u64, size: usize) {
     let ctx = sim::SimCtx::new(data_dir);
     for b in 0..batches {
@@ -37,42 +60,44 @@ pub fn run(runner: &mut Runner, data_dir: &str, seed: u64, batches: u64, size: u
             inputs.push((nt, ev.vertex, banks));
         }
         let base = obj(vec![("fam", json!("batch")), ("kind", json!("noise-free")), ("case", json!(format!("batch{b}"))), ("n", json!(size))]);
-        runner.case(base, move || {
-            let results: Vec<(usize, (f64, f64, f64), Option<(f64, f64, f64)>, bool)> = inputs
-                .into_par_iter()
-                .map(|(nt, truth, banks)| {
-                    let owned: Vec<(String, Vec<u8>)> = banks.iter().map(|b| (String::from_utf8_lossy(&b.name).into_owned(), b.data.clone())).collect();
-                    let h = std::thread::Builder::new()
-                        .stack_size(256 << 20)
-                        .spawn(move || {
-                            let it = owned.iter().map(|(n, d)| (n.as_str(), &d[..]));
-                            match MainEvent::try_from_banks(u32::MAX, it) {
-                                Ok(ev) => (ev.vertex().map(|c| (c.x.get::<meter>(), c.y.get::<meter>(), c.z.get::<meter>())), true),
-                                Err(_) => (None, false),
-                            }
-                        })
-                        .unwrap();
-                    let (v, built) = h.join().unwrap_or((None, false));
-                    (nt, truth, v, built)
-                })
-                .collect();
-            let mut m = serde_json::Map::new();
-            m.insert("verdict".into(), json!("ok"));
-            m.insert("ntracks".into(), json!(results.iter().map(|r| r.0).collect::<Vec<_>>()));
-            m.insert("built".into(), json!(results.iter().filter(|r| r.3).count()));
-            m.insert("truth".into(), json!(results.iter().map(|r| json!([q(r.1 .0), q(r.1 .1), qz(r.1 .2)])).collect::<Vec<Value>>()));
-            m.insert(
-                "reco".into(),
-                json!(results
-                    .iter()
-                    .map(|r| match r.2 {
-                        Some(v) if v.0.is_finite() && v.1.is_finite() && v.2.is_finite() => json!([q(v.0), q(v.1), qz(v.2)]),
-                        Some(_) => json!([99_999, 99_999, 999_999]),
-                        None => json!([]),
-                    })
-                    .collect::<Vec<Value>>()),
-            );
-            m
-        });
+        runner.case(base, move || reconstruct(inputs));
     }
+}
+
+fn reconstruct(inputs: Vec<(usize, (f64, f64, f64), Vec<crate::evt::BankB>)>) -> serde_json::Map<String, Value> {
+    let results: Vec<(usize, (f64, f64, f64), Option<(f64, f64, f64)>, bool)> = inputs
+        .into_par_iter()
+        .map(|(nt, truth, banks)| {
+            let owned: Vec<(String, Vec<u8>)> = banks.iter().map(|b| (String::from_utf8_lossy(&b.name).into_owned(), b.data.clone())).collect();
+            let h = std::thread::Builder::new()
+                .stack_size(256 << 20)
+                .spawn(move || {
+                    let it = owned.iter().map(|(n, d)| (n.as_str(), &d[..]));
+                    match MainEvent::try_from_banks(u32::MAX, it) {
+                        Ok(ev) => (ev.vertex().map(|c| (c.x.get::<meter>(), c.y.get::<meter>(), c.z.get::<meter>())), true),
+                        Err(_) => (None, false),
+                    }
+                })
+                .unwrap();
+            let (v, built) = h.join().unwrap_or((None, false));
+            (nt, truth, v, built)
+        })
+        .collect();
+    let mut m = serde_json::Map::new();
+    m.insert("verdict".into(), json!("ok"));
+    m.insert("ntracks".into(), json!(results.iter().map(|r| r.0).collect::<Vec<_>>()));
+    m.insert("built".into(), json!(results.iter().filter(|r| r.3).count()));
+    m.insert("truth".into(), json!(results.iter().map(|r| json!([q(r.1 .0), q(r.1 .1), qz(r.1 .2)])).collect::<Vec<Value>>()));
+    m.insert(
+        "reco".into(),
+        json!(results
+            .iter()
+            .map(|r| match r.2 {
+                Some(v) if v.0.is_finite() && v.1.is_finite() && v.2.is_finite() => json!([q(v.0), q(v.1), qz(v.2)]),
+                Some(_) => json!([99_999, 99_999, 999_999]),
+                None => json!([]),
+            })
+            .collect::<Vec<Value>>()),
+    );
+    m
 }
